@@ -285,6 +285,50 @@ func c16(env *Env, rep *Report) {
 			}
 		}
 	}
+	// (e) the handshake response has its fixed layout for every client version byte pair with a byte at or above
+	// 0x80, 0x7f, 0 (quick: 24 pairs; thorough: all 65536), on the three transports
+	if env.Shard == 0 || env.NShards == 1 {
+		vals := []byte{0, 1, 0x7f, 0x80, 0xc2, 0xff}
+		var pairs [][2]byte
+		if env.thorough() {
+			for a := 0; a < 256; a++ {
+				for b := 0; b < 256; b++ {
+					pairs = append(pairs, [2]byte{byte(a), byte(b)})
+				}
+			}
+		} else {
+			for _, a := range vals {
+				for _, b := range vals {
+					pairs = append(pairs, [2]byte{a, b})
+				}
+			}
+		}
+		for _, kind := range []string{"proc", "ws", "legacy"} {
+			if env.thorough() && kind != "proc" {
+				pairs = pairs[:0]
+				for _, a := range vals {
+					for _, b := range vals {
+						pairs = append(pairs, [2]byte{a, b})
+					}
+				}
+			}
+			for _, v := range pairs {
+				distinct++
+				res := RunSeq(c01Cfg(true, false, kind), []Seg{{Bytes: tsgu.Handshake(v[0], v[1], 0, tsgu.ExtAuthPAA)}})
+				rep.add("executions", 1)
+				rep.add("transitions", int64(res.StepsRun))
+				if len(res.Panics) > 0 || !res.Opened || len(res.Steps) != 1 || len(res.Steps[0].Resps) != 1 {
+					rep.violate("C16/handshake-not-answered-by-exactly-one-packet/"+kind, fmt.Sprintf("client version %d.%d", v[0], v[1]), map[string]any{"noreplay": true})
+					continue
+				}
+				r := tsgu.ParseResp(res.Steps[0].Resps[0])
+				rep.outcome(fmt.Sprintf("e handshake-layout %s wellformed=%v", kind, r.WellFormed))
+				if !r.WellFormed || r.Status != 0 || r.Major != v[0] || r.Minor != v[1] || r.ExtAuth != tsgu.ExtAuthPAA {
+					rep.violate("C16/handshake-response-layout/"+kind, fmt.Sprintf("client version %d.%d: well-formed=%v (%s) status=%#x echoed %d.%d advertised %#x", v[0], v[1], r.WellFormed, r.Why, r.Status, r.Major, r.Minor, r.ExtAuth), map[string]any{"noreplay": true})
+				}
+			}
+		}
+	}
 	if gwBin() != "" {
 		bindCaps(rep, "C16", env)
 	}
